@@ -69,6 +69,7 @@ def columnErrors (spec : ColSpec) (D : Frame) : List Err :=
 def jointUniqueErrors (S : Schema) (D : Frame) : List Err :=
   if !S.unique.isEmpty then
     let cols := (S.unique.filter D.hasCol).filterMap D.col?
+    if cols.isEmpty then [] else
     let dupPos := truePositions (dupRowMask .none (rowsOf D.nrows (cols.map (·.vals))))
     if dupPos.isEmpty then [] else
       [{ reason := .duplicates, ctx := .frame, label := none,
